@@ -378,10 +378,7 @@ pub fn expected(c: &Case, o: &Opts) -> Exp {
                 return Exp::Accept(wrap(tok));
             }
             if c.tag.is_some() {
-                if c.target == 16 && (is_nullish_plain(tok) || maybe_nullish(tok)) {
-                    return Exp::Unspec; // `!!str null` into an Option: tag vs null-likeness is not stated
-                }
-                return Exp::Accept(wrap(tok));
+                return Exp::Accept(wrap(tok)); // `!!str null` says it is a string, also for an Option
             }
             if is_nullish_plain(tok) {
                 return if c.target == 16 { Exp::Accept("None".into()) } else { Exp::Reject };
@@ -603,6 +600,26 @@ impl Prop for C06 {
                     return v;
                 }
                 _ => {}
+            }
+            // Option<String> vs String on the same scalar: whatever String accepts, Option<String> wraps in Some,
+            // except the plain untagged null spellings (and `!!null`), which are None
+            if c.target == 16 {
+                let plain_untagged = c.style == Style::Plain && c.tag.is_none();
+                let null_tag = c.tag.as_deref() == Some("!!null");
+                if !plain_untagged && !null_tag {
+                    if let Ok(Ok(sv)) = observe(14, 0, texts[0].as_ref().unwrap(), &o) {
+                        v.execs += 1;
+                        v.compared += 1;
+                        let want = format!("Some({})", sv);
+                        if root.as_ref().ok() != Some(&want) {
+                            v.fail(
+                                "option_string_differs_from_string",
+                                format!("{:?} [{:?}]: as String it is {}, as Option<String> it is {:?}", texts[0].as_ref().unwrap(), o, sv, root),
+                            );
+                            return v;
+                        }
+                    }
+                }
             }
             // root vs embedded agreement
             for emb in 1..3u8 {
